@@ -59,6 +59,7 @@ type PkgDecl struct {
 	Hidden      bool       // the package has an unexported @immutable type u<qual>, handed out by GetU<Qual>()
 	HiddenMutB  bool       // ... whose field B is @mutable
 	UnsafeFirst bool       // its files import "unsafe" before the world imports
+	Sparse      bool       // few annotations (see genDecls)
 	SplitDecl   bool       // methods and functions live in methods.go, types in decl.go
 	Grouped     bool       // a grouped type declaration: group doc shared, one spec with its own doc
 	BlankImport int        // index of an earlier package imported only for its side effects (import _), or -1
@@ -339,6 +340,11 @@ func genDecls(d drw, w *World, m *Meta, pd *PkgDecl) {
 		cloneDecls(m, pd)
 		return
 	}
+	// most real packages carry few annotations: a third of the generated ones are sparse
+	// (only the type-level annotations of their first type), so that "this package has no
+	// annotation of kind K at all" is a common situation, not a rare one
+	sparse := d.chance(1, 3)
+	pd.Sparse = sparse
 	nt := d.rng(1, 3)
 	shared := d.chance(1, 2)
 	if shared {
@@ -398,6 +404,13 @@ func genDecls(d drw, w *World, m *Meta, pd *PkgDecl) {
 		if d.chance(1, 2) {
 			td.NewPkgOnly = genPkgOnly(d, m, pd)
 		}
+		if sparse {
+			td.TestOnly, td.PMTest, td.VMTest, td.NewTest = false, false, false, false
+			td.PMPkgOnly, td.VMPkgOnly, td.NewPkgOnly = nil, nil, nil
+			if k > 0 {
+				td.Immutable, td.CtorLines, td.CtorNames, td.PkgOnly, td.MutB, td.MutCD = false, nil, nil, nil, false, false
+			}
+		}
 		// @implements
 		if d.chance(1, 3) {
 			switch d.Draw(7) {
@@ -431,11 +444,14 @@ func genDecls(d drw, w *World, m *Meta, pd *PkgDecl) {
 	}
 	pd.FuncTest = d.chance(1, 4)
 	pd.FuncPkgOnly = genPkgOnly(d, m, pd)
+	if sparse {
+		pd.FuncTest, pd.FuncPkgOnly = false, nil
+	}
 	pd.Hidden = d.chance(1, 4)
 	pd.HiddenMutB = d.chance(1, 2)
 	for _, j := range pd.Imports {
 		dep := m.Decls[j]
-		if len(dep.Types) > 0 && d.chance(1, 2) {
+		if len(dep.Types) > 0 && (d.chance(1, 2) || sparse) {
 			tn := dep.Types[d.Draw(len(dep.Types))].Name
 			pd.Reexports = append(pd.Reexports, Reexport{Dep: j, Type: tn, Fn: "GetX" + dep.Qual + tn})
 		}
@@ -827,7 +843,7 @@ func renderUses(d drw, w *World, m *Meta, pd *PkgDecl, fileName string, nfuncs i
 				}
 			}
 			// indirect shape: a type of a package this one may not import, reached through dep
-			if j != pd.Index && len(dep.Reexports) > 0 && d.chance(1, 2) {
+			if j != pd.Index && len(dep.Reexports) > 0 && (d.chance(1, 2) || (pd.Sparse && fileName == "more.go")) {
 				r := dep.Reexports[d.Draw(len(dep.Reexports))]
 				line := s.ln("\t%s%s().A = 11", qual, r.Fn)
 				m.Uses = append(m.Uses, UseSite{ID: len(m.Uses), Pkg: pd.Index, File: fileName, Line: line, Dep: r.Dep, Shape: "indirect-assign", Text: "Q." + r.Fn + "().A = 11", Type: r.Type})
@@ -945,7 +961,7 @@ func renderPkg(d drw, w *World, m *Meta, pd *PkgDecl) {
 	} else {
 		p.Files = append(append(p.Files, decl...), use)
 	}
-	if d.chance(1, 4) {
+	if d.chance(1, 4) || (pd.Sparse && len(pd.Imports) >= 2) {
 		p.Files = append(p.Files, renderUses(d, w, m, pd, "more.go", 1, d.chance(1, 2)))
 	}
 	if contains(pd.Imports, 0) && len(ctorFnTaken[pd.Index]) == 0 && d.chance(1, 4) {
